@@ -6,9 +6,30 @@ NOTE = ("bounded-exhaustive exploration of the real implementation (no separate 
         "implementation trace); trusted: Go toolchain 1.24.2, go/types, go/parser, gofmt/gofumpt as oracles, the harness' own reference models")
 
 CHECKS = {
+ "C02": dict(level="fault_enumeration", design="§4 C02", engine="PIPE+ENUM",
+   technique="exhaustive fault injection: every fault kind at every GenerateType/Defer call index of a real multi-package run, every torn prefix of gengo.sum, depth-2 fault sequences",
+   text="One fault of each of 6 kinds (error, unparseable rendering, panic, Goexit, os.Exit, SIGKILL in a child) at every callback index x All on/off, from a state whose previous outputs and gengo.sum were produced by the real system; oracles: error text, byte snapshots of the tree, the next clean run regenerates everything and reaches the files of the never-failed run (differential). Thorough: all depth-2 fault sequences and every torn prefix of gengo.sum."),
+ "C05": dict(level="model_checking", design="§4 C05", engine="PIPE",
+   technique="exhaustive enumeration of all ordered entrypoint selections x All x generator orders through the real pipeline, differential against the package-alone run",
+   text="All 64 ordered non-empty selections of 4 packages x All on/off x generator orders with stateful generators (no New / custom New / pre-allocated reference state) and the repo's own generators; bytes(P together) == bytes(P alone) for every processed package."),
+ "C06": dict(level="model_checking", design="§4 C06", engine="PIPE",
+   technique="exhaustive product of tag placements (global x package x declaration) x declaration kinds x prefix-related generator names through the real pipeline vs a reference enablement model; all small Defer shapes",
+   text="Every placement of <=2-tag sets out of 7 tags at three levels (29x29 per global set; quick 12, thorough 29 global sets) against a package holding every declaration kind (struct, scalar, generic, grouped, alias, foreign alias, function-local, method-local, shadowing type parameters); recorded GenerateType/GenerateAliasType multiset == reference model. Defer: 0..2 callbacks x 3 types x erroring index x previous file."),
+ "C07": dict(level="model_checking", design="§4 C07", engine="PIPE",
+   technique="exhaustive enumeration of 1- and 2-run histories over all generator behaviour pairs x All x pre-existing file subsets; whole-tree diff vs allowed-set model",
+   text="Histories of one and two real runs over all 25 behaviour pairs per run {render, nothing, ErrSkip, ErrIgnore, ErrIgnore+render} x All on/off x base names, one package per subset of 8 pre-existing file kinds (look-alike names, stale outputs, previous outputs) plus imported and never-selected packages; every file of the module is compared before/after."),
+ "C08": dict(level="model_checking", design="§4 C08", engine="PIPE+ENUM",
+   technique="explicit-state search over operation histories on real module trees (dedup by exact tree hash), each run transition executed by the real pipeline and judged against harness-computed hashes",
+   text="16 operations (toggling edits, sum deletion/4 corruptions, dangling symlink, 5 kinds of runs) to history length 3 (thorough 4), two layouts (incl. package in module root); skip <=> not Force and recorded == current for every package of every run; exact sum file contents; convergence of repeated runs from every state up to depth 2 (3)."),
+ "C09": dict(level="model_checking", design="§4 C09", engine="ENUM",
+   technique="exhaustive enumeration of all format strings up to a length bound x binding kinds against an independent reference renderer",
+   text="T: every format <=5 (thorough <=6) over 12 symbols x 6 binding kinds; Sprintf: every format <=5 (6) over 8 symbols x all argument lists <=2; Comment/GoDirective/Snippets/Fragments over all small argument lists; panic <=> reference panics, else byte equality."),
+ "C15": dict(level="model_checking", design="§4 C15", engine="ENUM",
+   technique="exhaustive enumeration of the reference grammar to bounded depth/width; round trip + independent reference rewriter",
+   text="Every reference string of the grammar inside the listed (heads, depth, width) spaces (up to depth 3, ~370k strings quick, ~12.7M thorough): ParseTypeRef round trip and tree equality, ParseRef/PkgImportPathAndExpose agreement, rendering vs the harness' own rewriter, tracker holds exactly the foreign paths."),
  "C19": dict(level="model_checking", design="§4 C19", engine="ENUM",
-   technique="exhaustive enumeration of all strings up to a length bound over a rune-class alphabet against the real Split/converters",
-   text="Every string of <=4 (thorough <=5) runes over a 13-class alphabet, plus invalid UTF-8 at every position, plus all ordered call pairs: totality, losslessness, non-empty words, purity. Exhaustive inside the bound; the code only branches on rune class, so one representative per class is a complete small scope."),
+   technique="exhaustive enumeration of all strings up to a length bound over a rune-class alphabet; all short call sequences from fresh processes",
+   text="Every string of <=4 (thorough <=5) runes over a 13-class alphabet, plus invalid UTF-8 at every position: totality, losslessness, non-empty words. Purity: all ordered call pairs in-process and every call sequence of length 2/3 (incl. two different functions) executed in a fresh process and compared with the single-call result of a fresh process."),
 }
 PENDING = {}
 
@@ -43,7 +64,8 @@ def main():
             "add_only": True,
         },
         "engines": [
-            {"name": "ENUM", "path": "/verif/mc/core", "serves_properties": sorted(CHECKS), "kind_free_text": "stateless choice-sequence explorer (DFS over recorded choice points, deviation bound, sharded over 16 worker processes) + evidence/known-finding/replay bookkeeping"},
+            {"name": "ENUM", "path": "/verif/mc/core", "serves_properties": sorted(CHECKS), "kind_free_text": "stateless choice-sequence explorer (DFS over recorded choice points, deviation bound, sharded over 16 worker processes), fresh-process workers, evidence/known-finding/replay bookkeeping"},
+            {"name": "PIPE", "path": "/verif/mc/pipe", "serves_properties": [k for k in sorted(CHECKS) if "PIPE" in CHECKS[k]["engine"]], "kind_free_text": "pipeline driver: synthetic modules in private scratch dirs, gengo.NewContext+Execute through the public API with data-scripted recording generators (faults, Defer, ErrSkip/ErrIgnore, stateful), tree snapshots; child-process mode for runs that die"},
         ],
         "checks": checks,
         "notes": "All checks are bounded-exhaustive explorations of the real implementation (model-checking family). Defects found are repaired by fix: commits in /repo or listed in /verif/known_findings.json.",
